@@ -563,7 +563,13 @@ func ZZHarnessContributionFlow() {
 		}
 		before := len(g.bn.contribSubmits)
 		wasFinished := st.Finished
-		_ = g.run.ProcessPostConsensus(g.lg, zzMultiPartial(spectypes.PostConsensusPartialSig, H, signer, sigs, roots))
+		msgRoots := roots
+		if nroots == 2 && step == honest+mcount-1 && zzNondetBool("sharesListedInReverseOrder") {
+			// any order of the inner shares is a well-formed message
+			sigs, msgRoots = [][]byte{sigs[1], sigs[0]}, [][32]byte{roots[1], roots[0]}
+			zzReach("reverse-order")
+		}
+		_ = g.run.ProcessPostConsensus(g.lg, zzMultiPartial(spectypes.PostConsensusPartialSig, H, signer, sigs, msgRoots))
 		if valid && !wasFinished {
 			validFrom[signer] = true
 		}
